@@ -212,6 +212,7 @@ func controlConds(b *ssa.BasicBlock) []ssa.Value {
 // backSliceOpt: with ctrl, the conditions controlling element stores and phi merges are part of the slice.
 func backSliceOpt(v ssa.Value, through func(ssa.Value) bool, ctrl bool) map[ssa.Value]bool {
 	seen := map[ssa.Value]bool{}
+	visitedFn := map[*ssa.Function]bool{}
 	var work []ssa.Value
 	push := func(x ssa.Value) {
 		if x != nil && !seen[x] {
@@ -262,6 +263,42 @@ func backSliceOpt(v ssa.Value, through func(ssa.Value) bool, ctrl bool) map[ssa.
 					push(a.Index)
 				}
 			}
+		case *ssa.Call:
+			// results of first-party static callees and of local closures: follow their return values
+			var cf *ssa.Function
+			if sc := y.Call.StaticCallee(); sc != nil && len(sc.Blocks) > 0 && len(sc.Blocks) <= 40 {
+				if pkg := calleePkg(sc); pkg != nil && v.Parent() != nil && calleePkg(v.Parent()) == pkg {
+					cf = sc
+				} else if sc.Parent() != nil {
+					cf = sc // function literal
+				}
+			}
+			if mc, ok := y.Call.Value.(*ssa.MakeClosure); ok {
+				cf, _ = mc.Fn.(*ssa.Function)
+			}
+			if cf != nil && !visitedFn[cf] {
+				visitedFn[cf] = true
+				for _, b := range cf.Blocks {
+					if ret, ok := b.Instrs[len(b.Instrs)-1].(*ssa.Return); ok {
+						for _, rv := range ret.Results {
+							push(rv)
+						}
+						if ctrl {
+							for _, cnd := range controlConds(b) {
+								push(cnd)
+							}
+						}
+					}
+				}
+			}
+			for _, op := range y.Operands(nil) {
+				if op != nil && *op != nil {
+					push(*op)
+				}
+			}
+		case *ssa.Parameter:
+			// a parameter of a callee we stepped into: the arguments at its call sites inside the slice are
+			// already pushed as operands of the call
 		case ssa.Instruction:
 			for _, op := range y.Operands(nil) {
 				if op != nil && *op != nil {
@@ -332,4 +369,108 @@ func instrDominates(a, b ssa.Instruction) bool {
 		}
 	}
 	return a.Block().Dominates(b.Block())
+}
+
+// ssaGroup: sf together with the same-package helpers it calls statically that have exactly one call site
+// in first-party code (what a maintainer obtains by extracting part of sf into a helper), two levels deep.
+func (p *Prog) ssaGroup(sf *ssa.Function) []*ssa.Function {
+	out := []*ssa.Function{sf}
+	seen := map[*ssa.Function]bool{sf: true}
+	var add func(f *ssa.Function, depth int)
+	add = func(f *ssa.Function, depth int) {
+		if depth >= 2 {
+			return
+		}
+		allInstrs(f, true, func(ins ssa.Instruction) {
+			call, ok := ins.(ssa.CallInstruction)
+			if !ok {
+				return
+			}
+			cal := call.Common().StaticCallee()
+			if cal == nil || seen[cal] || len(cal.Blocks) == 0 || calleePkg(cal) != calleePkg(sf) {
+				return
+			}
+			o, ok := cal.Object().(*types.Func)
+			if !ok || p.callSiteCounts()[o] != 1 || token.IsExported(o.Name()) {
+				return
+			}
+			seen[cal] = true
+			out = append(out, cal)
+			add(cal, depth+1)
+		})
+	}
+	add(sf, 0)
+	return out
+}
+
+// fieldStoresGroup: stores to the field in sf and its exclusive helpers.
+func (p *Prog) fieldStoresGroup(sf *ssa.Function, field *types.Var) []*ssa.Store {
+	var out []*ssa.Store
+	for _, f := range p.ssaGroup(sf) {
+		for _, st := range fieldStores(f, field, false) {
+			if f != sf && nilInitStore(st, field) {
+				continue // `if x.F == nil { x.F = new }` in a helper: initialisation, not a change
+			}
+			out = append(out, st)
+		}
+	}
+	return out
+}
+
+// nilInitStore: the store is control-dependent on `<load of the same field> == nil`.
+func nilInitStore(st *ssa.Store, field *types.Var) bool {
+	for _, cnd := range controlConds(st.Block()) {
+		if bo, ok := cnd.(*ssa.BinOp); ok && bo.Op == token.EQL {
+			for _, pr := range [][2]ssa.Value{{bo.X, bo.Y}, {bo.Y, bo.X}} {
+				if c, ok := pr[1].(*ssa.Const); ok && c.IsNil() {
+					if u, ok := pr[0].(*ssa.UnOp); ok && u.Op == token.MUL {
+						if f, _ := fieldOf(u.X); f == field {
+							return true
+						}
+					}
+				}
+			}
+		}
+	}
+	return false
+}
+
+// callSiteOf: the instruction in root's group that calls g.
+func (p *Prog) callSiteOf(root *ssa.Function, g *ssa.Function) ssa.Instruction {
+	var site ssa.Instruction
+	for _, f := range p.ssaGroup(root) {
+		allInstrs(f, true, func(ins ssa.Instruction) {
+			if call, ok := ins.(ssa.CallInstruction); ok && call.Common().StaticCallee() == g {
+				site = ins
+			}
+		})
+	}
+	return site
+}
+
+// instrDominatesG: dominance across a function and its exclusive helpers — an instruction of a helper is
+// represented by the helper's (single) call site in the caller.
+func (p *Prog) instrDominatesG(root *ssa.Function, a, b ssa.Instruction) bool {
+	for i := 0; i < 3 && a.Parent() != b.Parent(); i++ {
+		// lift the one that lives in a helper
+		if b.Parent() != root {
+			if cs := p.callSiteOf(root, b.Parent()); cs != nil {
+				b = cs
+				continue
+			}
+		}
+		if a.Parent() != root {
+			// a inside a helper dominates what follows the helper's call site only if it is on every path
+			// of the helper; approximate by the call site
+			if cs := p.callSiteOf(root, a.Parent()); cs != nil {
+				a = cs
+				continue
+			}
+		}
+		return false
+	}
+	if a.Parent() != b.Parent() {
+		return false
+	}
+	return instrDominates(a, b)
 }
